@@ -6,10 +6,8 @@ From Morph Require Import Base.UStr Gen.Tables Model.Terms Model.Data Model.Engi
      Proofs.DataP Proofs.UStrP Proofs.SplitP Proofs.EscP Proofs.TemplateP Proofs.TermP Proofs.RowwiseP.
 Local Open Scope N_scope.
 
-Definition reserved : list ustr := [col_subject; col_predicate; col_object; col_graph; col_ld; col_triple; col_refres].
 (* no reference of the rule names a working column of the materializer *)
 Definition names_free (ns : list ustr) : Prop := forall n, In n ns -> mem n reserved = false.
-Definition is_pos (p : ustr) : bool := mem p [col_subject; col_predicate; col_object; col_graph; col_ld].
 
 Lemma names_free_no_shadow pos ns : is_pos pos = true -> names_free ns -> no_shadow [] pos ns.
 Proof.
